@@ -28,7 +28,7 @@ ASSUMPTIONS = [
 ]
 OPEN_STATEMENTS = [
     'lambda_norm: CLOSED for ALL real symmetric inputs without side condition (lambda_norm_oracle_all: the exact-run hypothesis is discharged with deletion threshold 0, where every += is exact; likewise one_norm_spec_partial_all for the Coulomb class, with and without the identity). Details: lambda_norm_spec (Model of lambda_norm = sum of |c| over the non-identity strings of the Model of jordan_wigner(DiagonalCoulombHamiltonian), all real, image acts like the Spec operator), pauli_decomposition_unique (trace orthogonality: the Spec oracle jwOneNorm of any fermionic operator equals the sum of |c| of any canonical Pauli form acting like it) and lambda_norm_oracle (jwOneNorm n (const + sum T a+a + sum V nn) false = some (lambda_norm)) hold for every n; the only hypothesis is the exact-run flag jwDCHOk of the Model transform, evaluated by the driver (c19.spec.dch_pauli_norm) on every generated real Hamiltonian. Hermitian one_body with imaginary entries: correspondence + oracle only (the Model of lambda_norm takes real matrices).',
-    'one_norm_spec (get_one_norm_int(_woconst) = 1-norm of the Jordan-Wigner coefficients for eight-fold symmetric integrals): open as a theorem — pauli_decomposition_unique reduces it to reading off the coefficients of the Model image jwInteractionOp of the spin-orbital Hamiltonian (identity, Z, ZZ, hopping strings with and without an extra / missing Z, four-letter strings, with all index coincidences), which is not done. PROVED: one_norm_spec_partial — for every n, real symmetric h and Coulomb-type two-body integrals (g_pqrs = 0 unless s = p and r = q, g_pqqp = g_qppq; contains g = 0) the Model of get_one_norm_int_woconst equals the Spec oracle jwOneNorm of molOp (hypothesis: exact-run flag of the Model transform, evaluated by the driver op c19.spec.mol_coulomb on every generated Coulomb-type case); for the same class one_norm_int_spec_partial gives get_one_norm_int = jwOneNorm(..., with identity); MISSING: exchange-type g_pqpq / g_ppqq (their opposite-spin parts are genuine four-index terms: per orbital pair the surviving Pauli words are XYYX, YXXY, XXYY, YYXX on the four spin orbitals with coefficient +-K/4 — PROVED for one orbital pair: one_norm_exchange_pair_partial — spin flip + pair hopping act like K/4 (XYYX - XXYY - YYXX + YXXY) and their Spec-oracle 1-norm is |K|; still missing: the assembly over all pairs with the density-density part (same-spin exchange turns V into (J - K)/2), pairwise different keys of the merged image and the normal form of get_one_norm_int_woconst with exchange entries) and general three- / four-index integrals. Also proved (one_norm_identity_coefficient, all integrals, no symmetry): the identity coefficient Tr(H)/4^n of the Spec operator molOp is htilde, and get_one_norm_int = |htilde| + get_one_norm_int_woconst, i.e. _woconst drops exactly the identity term (also evaluated by the driver: c19.spec.identity_coef, c19.spec.mol_op). The non-identity part is checked exactly by the Spec oracle jwOneNorm (Pauli decomposition from the Spec ladder action on all Fock states) for n_orb <= 2 (3 on a sample).',
+    'one_norm_spec (get_one_norm_int(_woconst) = 1-norm of the Jordan-Wigner coefficients for eight-fold symmetric integrals): open as a theorem — pauli_decomposition_unique reduces it to reading off the coefficients of the Model image jwInteractionOp of the spin-orbital Hamiltonian (identity, Z, ZZ, hopping strings with and without an extra / missing Z, four-letter strings, with all index coincidences), which is not done. PROVED: one_norm_spec_partial — for every n, real symmetric h and Coulomb-type two-body integrals (g_pqrs = 0 unless s = p and r = q, g_pqqp = g_qppq; contains g = 0) the Model of get_one_norm_int_woconst equals the Spec oracle jwOneNorm of molOp (hypothesis: exact-run flag of the Model transform, evaluated by the driver op c19.spec.mol_coulomb on every generated Coulomb-type case); for the same class one_norm_int_spec_partial gives get_one_norm_int = jwOneNorm(..., with identity); one_norm_int_of_woconst reduces, for ALL integrals, the statement for get_one_norm_int to the one for get_one_norm_int_woconst; MISSING: exchange-type g_pqpq / g_ppqq (their opposite-spin parts are genuine four-index terms: per orbital pair the surviving Pauli words are XYYX, YXXY, XXYY, YYXX on the four spin orbitals with coefficient +-K/4 — PROVED for one orbital pair: one_norm_exchange_pair_partial — spin flip + pair hopping act like K/4 (XYYX - XXYY - YYXX + YXXY) and their Spec-oracle 1-norm is |K|; still missing: the assembly over all pairs with the density-density part (same-spin exchange turns V into (J - K)/2), pairwise different keys of the merged image and the normal form of get_one_norm_int_woconst with exchange entries) and general three- / four-index integrals. Also proved (one_norm_identity_coefficient, all integrals, no symmetry): the identity coefficient Tr(H)/4^n of the Spec operator molOp is htilde, and get_one_norm_int = |htilde| + get_one_norm_int_woconst, i.e. _woconst drops exactly the identity term (also evaluated by the driver: c19.spec.identity_coef, c19.spec.mol_op). The non-identity part is checked exactly by the Spec oracle jwOneNorm (Pauli decomposition from the Spec ladder action on all Fock states) for n_orb <= 2 (3 on a sample).',
     'mu: the Model computes the least mu with eps*n*2^mu >= 1 and that minimality is a theorem (sub_bit_precision_spec); the implementation returns mu+1 for eps*n = 2^-k with k in {29, 31, 39, 47, 51, 55, 58, 59, 62} because math.log(x, 2) is inexact there (not a violation of the property; such inputs are not generated).',
     'cost functions: PROVED beyond total = step x iterations: cost_sparse has a positive per-step cost for all parameters and its total is monotone in lam and 1/dE (sparse_total_monotone); compute_cost: per-step cost independent of lam, dE and total monotone when the per-step cost is non-negative (thc_total_monotone), which holds — the per-step cost is positive — whenever M >= 1 and beta >= 2 (thc_total_monotone_pos); QR2 / QI2 minimise over ALL k1, k2 >= 1 for table sizes <= 2^16 (qr2_global_minimiser, qi2_global_minimiser; larger tables: searched grid only).',
     'compute_cost / cost_sparse: the number of rotation bits br (arg-min of an arccos/sin expression) and np.pi are outside the theorems (parameters / rational enclosure); the ancilla counts are covered by correspondence only. cost_estimator: Model for all its integer / rational arithmetic and theorem cost_estimator_select_spec for the selection loop (first strict minimum among the feasible layouts); the failure probabilities (irrational powers) are outside the Lean Model — checked against an independent float evaluation in the harness — and no optimality statement beyond the searched grid is made.',
